@@ -49,22 +49,19 @@ theorem C06_refine_reversed (pts : List (K × K)) (p0 : K × K) (tl : List (K ×
   · exact C06_refine p0 tl a b hs h0 (lt_of_le_of_ne hab h) hbl
 
 /-- **C06 (each R_i is the exact integral over its clipped bin).** For increasing storage the
-    response of one bin with edges `e1`, `e2` (either order) is the integral between the edges
-    clipped to the filter range. -/
+    response of one bin with edges `e1`, `e2` (either order) is exactly the integral of the
+    piecewise-linear response between the edges clipped to the filter range, taken in increasing
+    order; for non-negative responses it is non-negative. -/
 theorem C06_bin (p0 : K × K) (tl : List (K × K)) (hs : SortedX (p0 :: tl)) (e1 e2 : K) :
     binResp (p0 :: tl) p0.1 (lastD tl p0).1 e1 e2
-      = |cumInt (p0 :: tl) (clampK p0.1 (lastD tl p0).1 e2) - cumInt (p0 :: tl) (clampK p0.1 (lastD tl p0).1 e1)|
-      ∨ binResp (p0 :: tl) p0.1 (lastD tl p0).1 e1 e2
-      = -|cumInt (p0 :: tl) (clampK p0.1 (lastD tl p0).1 e2) - cumInt (p0 :: tl) (clampK p0.1 (lastD tl p0).1 e1)| := by
-  rcases le_total e1 e2 with h | h
-  · rw [binResp_inc p0 tl hs e1 e2 h]
-    rcases abs_choice (cumInt (p0 :: tl) (clampK p0.1 (lastD tl p0).1 e2) - cumInt (p0 :: tl) (clampK p0.1 (lastD tl p0).1 e1)) with h' | h'
-    · left; exact h'.symm
-    · right; rw [h', neg_neg]
-  · rw [binResp_dec p0 tl hs e1 e2 h, ← abs_neg, neg_sub]
-    rcases abs_choice (cumInt (p0 :: tl) (clampK p0.1 (lastD tl p0).1 e1) - cumInt (p0 :: tl) (clampK p0.1 (lastD tl p0).1 e2)) with h' | h'
-    · left; exact h'.symm
-    · right; rw [h', neg_neg]
+      = cumInt (p0 :: tl) (clampK p0.1 (lastD tl p0).1 (max e1 e2))
+        - cumInt (p0 :: tl) (clampK p0.1 (lastD tl p0).1 (min e1 e2)) ∧
+    ((∀ p ∈ p0 :: tl, 0 ≤ p.2) → 0 ≤ binResp (p0 :: tl) p0.1 (lastD tl p0).1 e1 e2) := by
+  refine ⟨binResp_exact p0 tl hs e1 e2, fun hnn => ?_⟩
+  rw [binResp_exact p0 tl hs e1 e2]
+  have hlh := lastD_ge tl p0 hs
+  exact sub_nonneg.mpr (cumInt_mono _ _ _ hs hnn
+    (clampK_mono _ _ _ _ hlh (le_trans (min_le_left e1 e2) (le_max_left e1 e2))))
 
 /-- **C06 (bins).** The bins of `Filter.rebin` are the consecutive pairs of `binEdges`: first edge
     `ν₀`, midpoints between adjacent SED frequencies, last edge `ν_last`. -/
@@ -86,6 +83,53 @@ theorem C06_rebin_length (p0 : K × K) (tl : List (K × K)) (nus : List K) :
     binned response as the same nodes stored in increasing frequency. -/
 theorem C06_rebin_reversed (q : List (K × K)) (hs : SortedX q) (nus : List K) :
     rebin q.reverse nus = rebin q nus := rebin_reverse q hs nus
+
+/-- the exact integral of the response of increasing nodes `q0 :: tq` over the bin with edges `e1`, `e2`
+    (either order), restricted to the filter range -/
+def binIntegral (q0 : K × K) (tq : List (K × K)) (e1 e2 : K) : K :=
+  cumInt (q0 :: tq) (clampK q0.1 (lastD tq q0).1 (max e1 e2))
+    - cumInt (q0 :: tq) (clampK q0.1 (lastD tq q0).1 (min e1 e2))
+
+/-- **C06 (every R_i).** Filter nodes `q` increasing, stored in either order; any SED grid (either
+    order — no monotonicity is needed).  Element `i` of `Filter.rebin(nu).response` is the exact
+    integral of the response over bin `i`, whose edges are elements `i` and `i+1` of `binEdges`
+    (first edge ν₀, midpoints, last edge ν_last), clipped to the filter range. -/
+theorem C06_rebin_elem (q0 : K × K) (tq : List (K × K)) (flt : List (K × K))
+    (hs : SortedX (q0 :: tq)) (hst : flt = q0 :: tq ∨ flt = (q0 :: tq).reverse) (nus : List K) :
+    rebin flt nus = List.zipWith (binIntegral q0 tq) (binEdges nus) (binEdges nus).tail := by
+  have hflt : rebin flt nus = rebin (q0 :: tq) nus := by
+    rcases hst with h | h
+    · rw [h]
+    · rw [h, rebin_reverse _ hs]
+  rw [hflt]
+  cases nus with
+  | nil => rfl
+  | cons n0 rest =>
+    rw [rebin_sorted q0 tq hs, C06_edges]
+    have hf : binResp (q0 :: tq) q0.1 (lastD tq q0).1 = binIntegral q0 tq := by
+      funext e1 e2; exact binResp_exact q0 tq hs e1 e2
+    rw [hf]; rfl
+
+/-- **C06 (every R_i, indexed form).** -/
+theorem C06_rebin_getElem (q0 : K × K) (tq : List (K × K)) (flt : List (K × K))
+    (hs : SortedX (q0 :: tq)) (hst : flt = q0 :: tq ∨ flt = (q0 :: tq).reverse) (nus : List K) (i : Nat) :
+    (rebin flt nus)[i]? =
+      (match (binEdges nus)[i]?, (binEdges nus)[i + 1]? with
+       | some e1, some e2 => some (binIntegral q0 tq e1 e2)
+       | _, _ => none) := by
+  rw [C06_rebin_elem q0 tq flt hs hst nus, List.getElem?_zipWith, List.getElem?_tail]
+  cases (binEdges nus)[i]? <;> cases (binEdges nus)[i + 1]? <;> rfl
+
+/-- **C06 (R_i ≥ 0).** Non-negative responses give non-negative binned responses. -/
+theorem C06_rebin_nonneg (q0 : K × K) (tq : List (K × K)) (flt : List (K × K))
+    (hs : SortedX (q0 :: tq)) (hst : flt = q0 :: tq ∨ flt = (q0 :: tq).reverse)
+    (hnn : ∀ p ∈ q0 :: tq, 0 ≤ p.2) (nus : List K) : ∀ r ∈ rebin flt nus, 0 ≤ r := by
+  intro r hr
+  rw [C06_rebin_elem q0 tq flt hs hst nus] at hr
+  obtain ⟨e1, e2, rfl⟩ := mem_zipWith_exists _ _ _ r hr
+  have := (C06_bin q0 tq hs e1 e2).2 hnn
+  rw [(C06_bin q0 tq hs e1 e2).1] at this
+  exact this
 
 /-- **C06 (conservation).** Filter nodes `q` increasing, stored in either order; SED frequencies
     monotonic in either order.  The rebinned responses sum to the integral of the filter over the
@@ -232,6 +276,39 @@ theorem C06_quadrature_scale (c : K) : ∀ (E R : List K),
   | e :: E, r :: R => by
     have ih := C06_quadrature_scale c E R
     simp only [List.map_cons, convolveVar, ih]; ring
+
+/-- **C06 (the whole convolution: flat spectrum).** `broadband` is the composition the code performs
+    (re-bin onto the SED grid, then `Σ F_i R_i`); for the code's own normalisation, a filter inside the
+    SED range and `F_ν ≡ c` it returns `c`. -/
+theorem C06_broadband_flat (q0 : K × K) (tq : List (K × K)) (stored : List (K × K))
+    (hs : SortedX (q0 :: tq)) (hst : stored = q0 :: tq ∨ stored = (q0 :: tq).reverse)
+    (hnn : ∀ p ∈ q0 :: tq, 0 ≤ p.2) (hint : trapz (q0 :: tq) ≠ 0)
+    (n0 : K) (rest : List K)
+    (hn : (n0 :: rest).Pairwise (fun a b => a ≤ b) ∨ (n0 :: rest).Pairwise (fun a b => b ≤ a))
+    (hlo : min n0 (lastD rest n0) ≤ q0.1) (hhi : (lastD tq q0).1 ≤ max n0 (lastD rest n0))
+    (c : K) (F : List K) (hF : F.length = (n0 :: rest).length) (hc : ∀ f ∈ F, f = c) :
+    broadband (normalize stored) (n0 :: rest) F = c :=
+  C06_flat_normalized q0 tq stored hs hst hnn hint n0 rest hn hlo hhi c F hF hc
+
+/-- **C06 (the whole convolution: Σ F_i · exact bin integral).** -/
+theorem C06_broadband_eq (q0 : K × K) (tq : List (K × K)) (flt : List (K × K))
+    (hs : SortedX (q0 :: tq)) (hst : flt = q0 :: tq ∨ flt = (q0 :: tq).reverse) (nus F E : List K) :
+    broadband flt nus F
+      = convolve F (List.zipWith (binIntegral q0 tq) (binEdges nus) (binEdges nus).tail) ∧
+    broadbandVar flt nus E
+      = convolveVar E (List.zipWith (binIntegral q0 tq) (binEdges nus) (binEdges nus).tail) := by
+  unfold broadband broadbandVar
+  rw [C06_rebin_elem q0 tq flt hs hst nus]
+  exact ⟨rfl, rfl⟩
+
+/-- **C06 (the whole convolution: linear in the SED, errors scale in quadrature).** -/
+theorem C06_broadband_linear (flt : List (K × K)) (nus : List K) (α β : K) (F G : List K)
+    (h : F.length = G.length) (c : K) (E : List K) :
+    broadband flt nus (List.zipWith (fun f g => α * f + β * g) F G)
+      = α * broadband flt nus F + β * broadband flt nus G ∧
+    broadbandVar flt nus (E.map (fun e => c * e)) = c * c * broadbandVar flt nus E ∧
+    0 ≤ broadbandVar flt nus E :=
+  ⟨C06_linear α β F G _ h, C06_quadrature_scale c E _, (C06_quadrature [] E _).2.2⟩
 
 /-- `rebinE` refuses an empty table and otherwise is `rebin` -/
 theorem C06_rebinE (flt : List (K × K)) (nus : List K) :
